@@ -80,7 +80,7 @@ def de_bruijn2(k):
 OCC = (0xa0, 0xa1, 0xa2, 0xa3, 0xa4, 0xa6, 0xa7, 0xac)
 PAIR_FAMILY = {
     # quick: the family the property is about; thorough: every uplink element (commands: every command)
-    "C07": lambda h, th: h["e"] == "up" and h["ty"] not in (0x89, 0x8a, 0x8b, 0x8c, 0x8d, 0x8e) and (th or h["ty"] in OCC + (0xb0, 0xb2, 0xc0, 0xe1, 0xe2)),
+    "C07": lambda h, th: h["e"] == "up" and h["ty"] not in (0x89, 0x8a, 0x8b, 0x8c, 0x8d, 0x8e) and (th or h["ty"] in OCC + (0xb0, 0xb2, 0xc0, 0xe1, 0xe2, 0xe5)),
     "C08": lambda h, th: h["e"] == "up" and (h["ty"] in (0xa0, 0xa1, 0xa2, 0xa3) or (th and h["ty"] in OCC + (0xe1, 0xe5))),
     "C19": lambda h, th: h["e"] == "up" and h["ty"] in OCC,
     "C09": lambda h, th: h["e"] == "hl" and (th or h["fn"] in ("bidib_set_train_peripheral", "bidib_emergency_stop_train", "bidib_switch_point", "bidib_set_signal", "bidib_set_peripheral")),
